@@ -447,7 +447,16 @@ def step (d : Drv) (cmd : List Sexp) : Drv × String :=
       match r with
       | .mat oid .. | .transfer oid .. | .select oid .. =>
         if d.hasPay oid then (d, errLine .type)
-        else ({ d with st := { d.st with payloads := (oid, .seq (sem d.sigma r)) :: d.st.payloads } }, "ok attached")
+        else
+          match r.engine.kind with
+          | .iter =>
+            ({ d with st := { d.st with payloads := (oid, .seq (sem d.sigma r)) :: d.st.payloads } }, "ok attached")
+          | .sql =>
+            let idx := d.sqlSt.tables.length
+            let name := s!"att{idx}"
+            let pay : SqlPayload := { frm := .table name 0 idx, avail := r.columns.map (fun t => (t, SqlExpr.col name t)) }
+            ({ d with sqlSt := { d.sqlSt with tables := d.sqlSt.tables ++ [sem d.sigma r],
+                                              payloads := (oid, pay) :: d.sqlSt.payloads } }, "ok attached")
       | _ => (d, errLine .type)
   -- (process rN rM): Processor.process
   | [atom "process", atom n, atom tn] =>
@@ -455,8 +464,10 @@ def step (d : Drv) (cmd : List Sexp) : Drv × String :=
     | none => (d, "bad-ref")
     | some t =>
       match processTop d.sigma d.st d.sqlSt t with
-      | .error e => (d, errLine e)
-      | .ok (res, ps) =>
+      | (.error e, ps) =>
+        if e == .unspecified then (d, errLine e)
+        else ({ d with st := ps.st, sqlSt := ps.sq }, errLine e)
+      | (.ok res, ps) =>
         let d := { d with st := ps.st, sqlSt := ps.sq }
         let d := d.setDirect n (d.direct? tn)
         let (d, line) := d.report n (if res.isSame then "same" else "new") (.ok (res.get t))
